@@ -17,11 +17,14 @@ def run(ctx):
              "plus every observer/member comparison",
         what_corr="the observer admits / refuses a ciphertext differently from the window model",
         what_oracle="observer diverges from the members' public state, rejects what members accept, or panics",
-        assumptions=["proposals issued by the observer as an external sender are exercised by the directed scenario c10x (group with an ExternalSendersExt; Remove accepted and committed, a relayed Update dropped), not inside the random histories",
+        assumptions=["proposals issued by the observer as an external sender (Remove, Add, PSK, GroupContextExtensions; default cache and cache_proposals(false)) are exercised by the directed scenario c10x "
+                     "(group with an ExternalSendersExt; allowed types accepted and committed, a relayed Update dropped, the observer follows the commit over its own proposals), not inside the random histories",
                      "observers can only follow histories whose handshake messages are public"],
         nontrivial=lambda r, kv: len(set(open(__import__('os').path.join(ctx.work, 'c16.q')).read().splitlines())) + int(kv.get("comparisons", "0")),
         # proposals issued by an observer acting as external sender (allowed types are committed, a relayed Update is dropped)
-        also=[(["c10x"], None, "c10x")])
+        # (half of these observers run with cache_proposals(false): `propose` must remember what it issues whatever the flag says;
+        # only the failures of that scenario that concern the observer are reported here, the others belong to C10)
+        also=[(["c10x", "--focus", "C16"], None, "c10x")])
 
 
 def replay(ctx, path):
